@@ -9,7 +9,7 @@
  C16.swap     swapBytes reverses exactly sizeof(T) bytes
 """
 import os
-import ir, q, bounded
+import ir, q, bounded, bits
 from ir import strip, strip_lv, const_val, T, pe, walk_expr, fn_exprs, AnalysisBroken
 from core import fwhere
 
@@ -609,11 +609,12 @@ def check_reader(ctx, prog, other_val):
 
 def check_swap(ctx, prog):
     """swapBytes<T>: two memcpy of sizeof(T) around a loop i in [0,n) with by[i] = bx[n-i-1], n = sizeof(T)."""
-    fs = [f for f in prog.pattern('asl::swapBytes') if f.get('inst')]
+    fs = [f for f in prog.pattern('asl::swapBytes') if f.get('body') and (f.get('inst') or not f.get('tmpl'))]
+    fs = [f for f in fs if f.get('params') and T(f, f['params'][0]['t']).get('ref')]
     ctx.floor('C16.swap', len(fs), 4)
     for f in fs:
         ctx.analysed(f)
-        inst = f['q'].split('::')[-1]
+        inst = f['q'].split('::')[-1] + (f.get('sig') or '' if not f.get('inst') else '')
         pt = T(f, T(f, f['params'][0]['t']).get('to'))
         sz = pt.get('sz')
         if pt.get('rec'):
@@ -628,8 +629,32 @@ def check_swap(ctx, prog):
             msg = str(u)
             if msg.startswith('OOB:') or msg.startswith('UNDEF:'):
                 ctx.violation('C16.swap', f['pq'], inst + ':reversal', fwhere(f), 'swapBytes<%s>: %s' % (pt.get('s'), msg.split(':', 1)[1]))
-            else:
-                ctx.undecided('C16.swap', f['pq'], inst + ':reversal', fwhere(f), 'body outside the interpreted fragment: %s' % msg)
+                continue
+            # arithmetic implementation (shifts and masks on the value itself): bit provenance of the value assigned back
+            pid = f['params'][0]['id']
+            stores = [e for e in fn_exprs(f) if e.get('k') == 'bin' and e.get('op') == '=' and strip_lv(e['x']).get('id') == pid]
+            if len(stores) == 1 and sz and sz * 8 <= bits.W and pt.get('int'):
+                env = bits.Env(f, through_locals=True, prog=prog)
+                env.vars[pid] = bits.var_bits(pid, sz * 8)
+                # reads of the parameter promote like its type: the stored vector is extended by the casts of the expression
+                got = env.eval(stores[0]['y'])[:sz * 8]
+                want_bits = [(pid, 8 * (sz - 1 - (b // 8)) + (b % 8)) for b in range(sz * 8)]
+                ctx.evaluations += sz * 8
+                delegates = [e for e in fn_exprs(f) if e.get('k') == 'call' and e.get('pq') == 'asl::swapBytes']
+                if 'X' in got and delegates:
+                    ctx.ok('C16.swap', f['pq'], inst + ':reversal', fwhere(f), 'delegates to %s%s through a same-size copy' % (delegates[0].get('fn'), delegates[0].get('sig') or ''), nontrivial=False)
+                elif 'X' in got and not any(g_ != w_ and g_ != 'X' for g_, w_ in zip(got, want_bits)):
+                    ctx.undecided('C16.swap', f['pq'], inst + ':reversal', fwhere(f), 'assigned value not resolved to bits of the argument: [%s]' % bits.show(got, {pid: 'x'}, sz * 8))
+                else:
+                    ctx.check(got == want_bits, 'C16.swap', f['pq'], inst + ':reversal', fwhere(f, stores[0].get('l')), 'bit provenance of `%s` is the byte reversal' % pe(stores[0]['y']),
+                              'swapBytes(%s&) assigns `%s` = [%s]: not the byte reversal of the argument for every value (M = mix of two argument bits, e.g. a smeared sign bit)' % (pt.get('s'), pe(stores[0]['y']), bits.show(got, {pid: 'x'}, sz * 8)))
+                continue
+            calls = [e for e in fn_exprs(f) if e.get('k') == 'call' and e.get('pq') == 'asl::swapBytes']
+            if calls and not stores[1:]:
+                # delegates to another overload through a same-size unsigned copy (checked there)
+                ctx.ok('C16.swap', f['pq'], inst + ':reversal', fwhere(f), 'delegates to %s' % calls[0].get('fn'), nontrivial=False)
+                continue
+            ctx.undecided('C16.swap', f['pq'], inst + ':reversal', fwhere(f), 'body outside the interpreted fragment: %s' % msg)
             continue
         want = [sz - 1 - j for j in range(sz)]
         ctx.check(perm == want, 'C16.swap', f['pq'], inst + ':reversal', fwhere(f), 'result byte j = argument byte %d - j for all %d bytes' % (sz - 1, sz),
